@@ -29,8 +29,9 @@ PatE == { {<<0, 0>>},                                                        \* 
           {<<0, 0>>, <<1, 0>>, <<4, -2>>},                                   \* hole at <<2,-1>>: factor rule does not fire
           {<<0, 0>>, <<2, -1>>, <<4, -2>>, <<-1, 2>>} }                      \* inner edge filled, outer free
 \* (outer edge filled / edge assemblies without their sources: among the 255 patterns of the thorough emission)
-\* emission (thorough): all patterns over the line-focused domain
-PatET == PatL
+\* emission (thorough): every pattern of at most 4 cells over the line-focused domain (162 patterns; the larger ones are
+\* in the exhaustive runs and in the random traces)
+PatET == {P \in PatL : Cardinality(P) <= 4}
 
 GoBounded == TLCGet("level") < MaxLevel
 Bound   == TLCGet("level") <= MaxLevel
